@@ -9,3 +9,5 @@ const hookAvailable = false
 
 func installHook(m *mp, emit func(trace.M)) {}
 func removeHook()                           {}
+func suspendHook()                          {}
+func resumeHook()                           {}
